@@ -74,6 +74,10 @@ var faithfulTags = []string{
 	"name,qualifier=x y", "v,,a=1", "v,=x", ",a=1", "#{1+2},validate=min=1 max=3", "v,a=[x,y],b={p q}", "日本,arg=本 語",
 	// groups nested in groups of the same kind, separators inside the outer one after the inner one has ended
 	"${g.${l:en}:Hello, world},x=1", "#{max(${a:1},${b:2})},k", "[[1,2],[3,4]],k=[[a b] c] d", "v,a=((x y) z) w",
+	// the value is whatever stands before the first top-level comma: texts that look like arguments included
+	"k=v", "required=false", "a=b,required=false", "host=localhost port=5432", "YQ==", "sslmode=disable,x=1", "user=app password=secret,timeout=3 4",
+	// ... and texts with characters an escape or quoting convention would give a meaning to
+	`C:\data\,required=false`, `x y\,mapper=json`, `a\ b,c=d\ e`, `"q,r",s=1`, `'q',s='1 2'`,
 }
 
 var totalityTags = []string{",", ",,", "=", ",=", ",=,", "[", "]", "v,[", "v,a=[", "v,]", "v,a=]", "((", "))", "v, ", "v,\t", " ", "v,a=  ", "}{", "v,{a=1", "v,a=1}", ",,,=,,", "\x00,\xff=\xfe", "v,=", "v,a==", "[,],(,)", "日本,語=本 語", "v,é=1,©=2"}
